@@ -1203,7 +1203,7 @@ fn special_arm(src: &Src, fname: &str, gname: &str) -> R<String> {
 fn call_order(src: &Src, fname: &str, gname: &str, known: &[(&str, u64)], what: &str) -> R<String> {
     let (_, block) = find_fn(src, fname)?;
     struct V<'a> { known: &'a [(&'a str, u64)], out: Vec<u64> }
-    const IGNORE: &[&str] = &["Ok", "Err", "Some", "is_ok", "into", "clone", "to_string", "len", "as_ref", "as_raw_fd", "unwrap", "is_err", "ok_or",
+    const IGNORE: &[&str] = &["Ok", "Err", "Some", "is_ok", "unwrap_or_else", "into_inner", "into", "clone", "to_string", "len", "as_ref", "as_raw_fd", "unwrap", "is_err", "ok_or",
                              "CopyError", "InvalidDestination", "ReflinkFailed", "DestinationExists", "map_err", "to_path_buf", "new"];
     impl<'a> V<'a> {
         fn note(&mut self, name: &str) {
@@ -2108,9 +2108,9 @@ fn main() {
             emit("tree_walker", tree_walker_shape(&src), &mut out);
             emit("try_reflink", try_reflink(&src), &mut out);
             emit("CopyHandle::new", call_order(&src, "new", "x_copy_new_steps",
-                &[("File::open", 20), ("metadata", 21), ("try_exists", 22), ("is_same_file", 23), ("symlink_metadata", 26), ("needs_backup", 24), ("get_backup_path", 25),
+                &[("File::open", 20), ("metadata", 21), ("try_exists", 22), ("is_same_file", 23), ("symlink_metadata", 26), ("lock", 27), ("drop", 28), ("needs_backup", 24), ("get_backup_path", 25),
                   ("fs::rename", 1), ("File::create", 2), ("allocate_file", 3)],
-                "the steps of CopyHandle::new in evaluation order (20 open source, 21 fstat, 22 probe destination, 23 same-file check, 26 lstat of a destination the probe called absent (a dangling link is refused), 24/25 backup decision and name, 1 rename, 2 create+truncate, 3 size; 99 = any other call, 98 = return)"), &mut out);
+                "the steps of CopyHandle::new in evaluation order (20 open source, 21 fstat, 22 probe destination, 23 same-file check, 26 lstat of a destination the probe called absent (a dangling link is refused), 27 take / 28 release the backup-step lock (97 = its poison handler), 24/25 backup decision and name, 1 rename, 2 create+truncate, 3 size; 99 = any other call, 98 = return)"), &mut out);
             emit("copy_file", call_order(&src, "copy_file", "x_copy_file_steps",
                 &[("try_reflink", 4), ("probably_sparse", 30), ("copy_sparse", 31), ("copy_bytes", 32)],
                 "the steps of CopyHandle::copy_file (4 clone attempt, 30 sparseness test, 31 sparse walk, 32 plain loop)"), &mut out);
@@ -2162,6 +2162,9 @@ fn main() {
         ("libfs/src/linux.rs", "reflink"), ("libfs/src/linux.rs", "copy_file_bytes"), ("libfs/src/linux.rs", "copy_file_offset"),
         ("libfs/src/linux.rs", "try_copy_file_range"), ("libfs/src/linux.rs", "copy_node"), ("libfs/src/linux.rs", "lseek"),
         ("libfs/src/common.rs", "copy_xattr"),
+        ("libxcp/src/operations.rs", "tree_walker"), ("libxcp/src/operations.rs", "copy_file"),
+        ("libxcp/src/backup.rs", "ls_file_dir"), ("libxcp/src/backup.rs", "next_backup_num"), ("libxcp/src/backup.rs", "needs_backup"),
+        ("libxcp/src/drivers/parblock.rs", "queue_file_blocks"),
     ];
     {
         let mut items = vec![];
